@@ -441,7 +441,14 @@ func c13prop(ev *evid.Rec, forceWrap bool) func(rt *rapid.T) {
 						}
 					}
 					rec("setuser %s %s discon=%v", c.login, mode, a.Has(hlref.PrivDisconUser))
-					r := adm.conn.Request(hlref.TranSetUser, fld(hlref.FUserLogin, hlref.Obfuscate([]byte(c.login))), sfld(hlref.FUserName, fmt.Sprintf("Acct%d", c.idx)), fld(hlref.FUserAccess, a[:]), fld(hlref.FUserPassword, []byte{0}))
+					var r *hlref.Tran
+					if rapid.IntRange(0, 2).Draw(rt, "viaBatchEditor") == 0 {
+						// the same edit made with the batch editor of the newer clients (update-user, modify form)
+						rec("  (through update-user)")
+						r = adm.conn.Request(hlref.TranUpdateUser, fld(hlref.FData, subFields(fld(hlref.FUserLogin, hlref.Obfuscate([]byte(c.login))), sfld(hlref.FUserName, fmt.Sprintf("Acct%d", c.idx)), fld(hlref.FUserAccess, a[:]), fld(hlref.FUserPassword, []byte{0}))))
+					} else {
+						r = adm.conn.Request(hlref.TranSetUser, fld(hlref.FUserLogin, hlref.Obfuscate([]byte(c.login))), sfld(hlref.FUserName, fmt.Sprintf("Acct%d", c.idx)), fld(hlref.FUserAccess, a[:]), fld(hlref.FUserPassword, []byte{0}))
+					}
 					if !okReply(r) {
 						s.fail("set-user refused")
 					}
